@@ -180,8 +180,15 @@ def run(mir_path, pass_name, n, src_dir, extra=2):
                         if kinds_here[i] == "number":
                             orig = z3.Or(orig, z3.And(bounds[i] == s0, e0 == bounds[i + 1] + 2))
                     claims.append((orig, "a number token with an ordinal suffix covers more than its digits and the two suffix letters"))
+        # counterexamples are replayed through the lexer: prefer ones it can produce (two adjacent blank tokens exist
+        # only as a run of tabs next to a run of spaces)
+        prefer = []
+        for i in range(n - 1):
+            if kinds_here[i] == "space" and kinds_here[i + 1] == "space":
+                wi, wj = bounds[i + 1] - bounds[i], bounds[i + 2] - bounds[i + 1]
+                prefer.append((wi == amounts[i]) != (wj == amounts[i + 1]))
         for claim, what in claims:
-            ok, model = ctx.valid(claim)
+            ok, model = ctx.valid(claim, prefer)
             if not ok:
                 result["violations"].append({"what": what, "input": describe(model, kinds_here),
                                              "tokens_after": len(out)})
@@ -192,9 +199,10 @@ def run(mir_path, pass_name, n, src_dir, extra=2):
             return None
         bs = [model.eval(b, model_completion=True).as_long() for b in bounds]
         cs = [model.eval(c, model_completion=True).as_long() for c in chars]
-        return {"kinds": kinds_here, "boundaries": bs, "chars": cs, "text": as_text(kinds_here, bs, cs)}
+        am = [model.eval(a, model_completion=True).as_long() for a in amounts]
+        return {"kinds": kinds_here, "boundaries": bs, "chars": cs, "text": as_text(kinds_here, bs, cs, am)}
 
-    def as_text(kinds_here, bs, cs):
+    def as_text(kinds_here, bs, cs, am=None):
         """a plain-English text whose lexing has this token shape (used to replay through the public API)"""
         out = []
         for i, k in enumerate(kinds_here):
@@ -210,7 +218,7 @@ def run(mir_path, pass_name, n, src_dir, extra=2):
             elif k == "apostrophe":
                 out.append("'")
             elif k == "space":
-                out.append(" " * w)
+                out.append("\t" * w if am is not None and am[i] == 2 * w else " " * w)
             elif k == "newline":
                 out.append("\n" * w)
             elif k == "number":
